@@ -4,6 +4,7 @@ import KyupyVerif.Proofs.CircObjStats
 import KyupyVerif.Proofs.CircObjSubst
 import KyupyVerif.Proofs.CircObjSubstStatic
 import KyupyVerif.Proofs.CircObjSubstFull
+import KyupyVerif.Proofs.CircObjHistoryStatic
 /-! # C09 — circuit graph stays consistent under every edit history
 
 Object of the theorems: the hand-written object-level model `KV.CircObj` (Model/CircObj.lean) of `kyupy/circuit.py`:
@@ -48,7 +49,13 @@ fork outputs contain no `None`, ports are nodes of the circuit (plus model bookk
   - `substitute_wf0` / `substitute_wf`: the same conclusions from the decidable run-time preconditions `substPre0` /
     `substPre` (kinds, no self loop, pin guards, `forksFull` of the result) with NO hypothesis on the implementation;
   - `resolve_wf` (`resolvePre`), `resolve_wf_static` (`resolveStatic`), uniformly `step2_wf`, and `history_wf2` /
-    `history_wf2_prefix` for histories over all twelve operations.
+    `history_wf2_prefix` for histories over all twelve operations.  NOTE (audit 2, F8): `pre2` of `substitute` / `resolve`
+    is `substPre` / `resolvePre`, which contain `forksFull` of the RESULT (a conjunct of the conclusion) and the pin guards
+    evaluated along the run — for these two operations `history_wf2` proves only the remaining clauses of `WFc` (`WFc0`);
+  - `history_wf2_static` (+ `history_static_is_history`): the same for histories replayed under the STRUCTURAL
+    preconditions `pre2s` (Proofs/CircObjHistoryStatic.lean: `substStatic` for `substitute`, `resolveStatic` for
+    `resolve_tlib_cells`, `pre` / index-in-range for the rest): nothing about the result of a substitution is assumed.
+    (`resolveStatic` still checks `substStatic` on the circuit as it is when each substitution of the loop starts.)
 * **Correspondence** (harness/c09.py, differential, not proof): the model against the real `kyupy.circuit` API on random
   edit histories — canonical dump after EVERY step (node kinds, names, pin lists as line indices, line ends, `io_nodes`,
   `cells`/`forks` in dictionary order, `stats`) must be equal, `pre` must accept every generated operation, and `invOK` of
@@ -282,6 +289,16 @@ theorem history_wf2_prefix (ops rest : List Op2) (c : Circ) (h : run2 empty (ops
   obtain ⟨c', hc'⟩ := key ops empty h
   exact ⟨c', hc', history_wf2 ops c' hc'⟩
 
+/-- every finite history of STRUCTURAL well-formed uses (`pre2s`: `substStatic` for `substitute`, `resolveStatic` for
+`resolve_tlib_cells` — no clause about the result of a substitution, no guard evaluated inside one) that starts from the
+empty circuit ends in a well-formed circuit.  Non-circular form of `history_wf2` (audit 2, F8). -/
+theorem history_wf2_static (ops : List Op2) (c : Circ) (h : run2s empty ops = some c) : WFc c :=
+  run2s_wf ops empty c KV.CircObj.empty_wf h
+
+/-- ... and it is a history of `history_wf2` with the same result: `pre2s` implies `pre2` along the whole run -/
+theorem history_static_is_history (ops : List Op2) (c : Circ) (h : run2s empty ops = some c) : run2 empty ops = some c :=
+  run2_of_run2s ops empty c KV.CircObj.empty_wf h
+
 /-! ### the preconditions are satisfiable: a half adder instance is substituted by an implementation with a port read
 internally (a fork is made for it), an input with two readers (a fork is made) and one with a single reader; then an
 instance of a library cell is added and resolved, and a dangling gate is removed together with the logic behind it -/
@@ -310,6 +327,9 @@ example : ((run2 empty (exHistory2.take 21)).map fun c => (c.nodes.length, c.lin
   decide +kernel
 example : ((run2 empty exHistory2).map fun c => (c.nodes.length, c.lines.length, invOK c)) = some (8, 8, true) := by
   decide +kernel
+/-- the whole history (a `substitute`, a `resolve`, a `remove_dangling_nodes`, a `copy`) is a history of STRUCTURAL
+well-formed uses: hypothesis of `history_wf2_static` -/
+example : ((run2s empty exHistory2).map fun c => (c.nodes.length, c.lines.length)) = some (8, 8) := by decide +kernel
 /-- the structural preconditions hold for the substitution and for the resolution in this history -/
 example : ((run2 empty (exHistory2.take 13)).map fun c => substStatic c 2 exImpl) = some true := by decide +kernel
 example : ((run2 empty (exHistory2.take 20)).map fun c => resolveStatic [("INVX", exImpl2)] c) = some true := by decide +kernel
